@@ -26,6 +26,7 @@ SPEC = {
         "SecretKey::new / SecretKeyExtended::new (RNG-driven constructors) are not driven; the bit tweaks of the latter are clamp_satisfies on the model",
         "memory scrubbing (memsec) is out of scope of C11",
     ],
-    "explanation": "self-test: check_structure without the 0b0100_0000 test -> VIOLATION (clamp-check); SecretKeyExtended::sign using bytes "
-                   "32..64 swapped -> VIOLATION; harmless: reorder the three conjuncts of check_structure -> quiet.",
+    "explanation": "self-tests run on a scratch edit of the pallas worktree (reverted afterwards): check_structure without the 0b0100_0000 "
+                   "test -> exit 1, VIOLATION clamp-check bits=000/00 (+ extended key / signature differ from the reference); harmless: the three "
+                   "conjuncts of check_structure reordered and `== 0b0100_0000` written as `!= 0` -> exit 0, only the two KNOWN-FINDING lines.",
 }
